@@ -146,6 +146,27 @@ theorem search_filter_restricts (c : Coll) (hwf : c.WF) (f : Filter) (cands : Li
       rw [hfilter, truncate_eq_takeEnd]
       simp [takeEnd, hl]
 
+/-- The same three facts for the public entry points as called (complexity check first): whenever
+they answer, the answer is the specified one; a filter outside the budget is refused. -/
+theorem api_answers_are_specified (c : Coll) (hwf : c.WF) (f : Filter) (limit : Option Nat) (r : List Nat) :
+    (apiQueryAllIds c f = .ok r → r = fullResult c f) ∧
+    (apiQueryIds c f limit = .ok r → r = (fullResult c f).take (pageLen limit)) ∧
+    (apiQueryLastIds c f limit = .ok r →
+      r = (fullResult c f).drop ((fullResult c f).length - pageLen limit)) := by
+  unfold apiQueryAllIds apiQueryIds apiQueryLastIds guarded
+  refine ⟨fun h => ?_, fun h => ?_, fun h => ?_⟩ <;> split at h
+  · exact query_all_is_denotation c hwf f r h
+  · simp at h
+  · exact page_is_prefix c hwf f limit r h
+  · simp at h
+  · exact page_is_suffix c hwf f limit r h
+  · simp at h
+
+theorem over_budget_refused (c : Coll) (f : Filter) (limit : Option Nat) (h : withinBudget f = false) :
+    apiQueryAllIds c f = .error .complexity ∧ apiQueryIds c f limit = .error .complexity ∧
+    apiQueryLastIds c f limit = .error .complexity := by
+  simp [apiQueryAllIds, apiQueryIds, apiQueryLastIds, guarded, h]
+
 -- ------------------------------------------------------------------------------------------
 -- Non-vacuity: a concrete well-formed collection on which the hypotheses hold and the entry
 -- points answer (ids 1..5 with keys 50,10,20,40,30 on index 0 — the F-C03-1 collection).
@@ -165,6 +186,8 @@ theorem exColl_WF : exColl.WF := by
     rcases hkp with rfl | rfl | rfl | rfl | rfl <;> simp_all [exColl]
   · simp at hm
 
+example : withinBudget (.and [.field 0 (.ge 0), .not (.id (.incl [1, 2]))]) = true := by rfl
+example : apiQueryIds exColl (.and [.field 0 (.ge 0), .not (.id (.incl [1, 2]))]) (some 2) = .ok [3, 4] := by rfl
 example : queryAllIds exColl (.field 0 (.ge 0)) = .ok [1, 2, 3, 4, 5] := by rfl
 example : queryIds exColl (.field 0 (.ge 0)) (some 2) = .ok [1, 2] := by rfl
 example : queryLastIds exColl (.field 0 (.ge 0)) (some 2) = .ok [4, 5] := by rfl
